@@ -91,6 +91,11 @@ def cases(tier):
                     out.append(dict(m=m, route=route, target=tgt))
     for m in EK.big_grid_models(True)[:2]:
         out.append(dict(m=m, route='cfg', target='setfl_fs'))
+    # values of 1e-127 .. 1e120 inside the tabulated range
+    for m in EK.extreme_models(True)[:2]:
+        for tgt in ('setfl_fs', 'DL_POLY_EAM_fs'):
+            for route in ('cls', 'potable'):
+                out.append(dict(m=m, route=route, target=tgt))
     # under-specified: species that appear only as neighbour (to-only) or only as centre (from-only) of a density entry
     for els in EK.ordered_subsets(EK.UNIVERSE, (2, 3)):
         for ne in range(1, len(els)):
@@ -166,7 +171,7 @@ def run_case(case):
                     evals += len(arr)
                     for i, v in enumerate(arr):
                         r = f(i * dr).v
-                        if not C03.close(v, r):
+                        if not C03.close(v, r, 0.0 if m.get('mag') else 1e-13):
                             V('fs-slot:setfl', 'element block %s, density array %d (site %s): value %d = %r, the function declared for central %s / neighbour %s gives %r'
                               % (hdr[x], j, hdr[j], i, v, hdr[j], hdr[x], r))
                             break
